@@ -61,6 +61,7 @@ func main() {
 	noEvidence := flag.Bool("no-evidence", false, "do not write evidence (used by the self-test on scratch variants)")
 	overlay := flag.String("overlay", "", "JSON file {path: content} of in-memory replacements (self-test)")
 	listRules := flag.Bool("rules", false, "list rules and exit")
+	verbose := flag.Bool("v", false, "print every obligation")
 	noSelftest := flag.Bool("no-selftest", false, "thorough tier without the variant self-test")
 	selftestOnly := flag.String("selftest", "", "run only the variant self-test of the given property (comma list or 'all') and print the outcome")
 	flag.Parse()
@@ -169,6 +170,10 @@ func main() {
 		fmt.Printf("property=%s tier=%s rules=%d obligations=%d ok=%d known=%d violations=%d functions=%d wall=%.1fs\n",
 			id, *tier, len(registry[id].Rules), len(res.Obs), res.count("ok"), res.count("known"), res.count("violation"), len(c.Funcs), res.WallS)
 		for _, o := range res.Obs {
+			if *verbose {
+				fmt.Printf("  [%s] %s %s at %s: %s\n", o.Verdict, o.Rule, o.Construct, o.Pos, o.Detail)
+				continue
+			}
 			switch o.Verdict {
 			case "known":
 				fmt.Printf("KNOWN-FINDING: property=%s %s\n", id, o.Detail)
